@@ -15,6 +15,7 @@ LEVEL_TEXT = ("Bounded verification by symbolic execution: (R) for each class sh
 LEVEL_NOTE = ("Bounds: R: n = F+1 for one class per pattern shape with F<=40 + 5 geometries (quick), n in [F,F+2] all patterns (thorough); "
               "W: m<=3 modules quick / m<=4 thorough, 2-nt overhangs, every per-letter case assignment. Trusted: z3, CPython, "
               "symx models.")
+LEVEL_NOTE_EXTRA = 'Also: a vector with room for a third site (IllegalSite verdict under case change); characterize under every spelling; plasmids over ACGTN (unknown bases have a lower-case spelling too).'
 TECHNIQUE = "bounded symbolic execution of the real Python source (symx) with z3; metamorphic relation over symbolic per-letter case bits; replay on the real stack"
 EXPLANATION = ("case bits are symbolic variables: letter' = letter + 4*bit on the ACGT/acgt coding, so one query covers every "
                "mixed-case spelling of every plasmid / overhang graph in the bound")
